@@ -84,6 +84,33 @@ def welford_rolling(F, R):
          'mean := mean + (x − mean)/n with n the post-update count' if mean else 'no cell is updated as mean + (x − mean)/n_after', v.file)
     if mean is None:
         return
+    # ... and from the initial state: after k delivered values the mean cell is Σ u_i / k, weight by weight (linear-form domain)
+    from .lti import transient, Form, NonConst, _rename_u
+    bad = []
+    steps = [0]
+
+    def probe(k, ev, ex):
+        try:
+            f = ev.ev(ex.fields.get(mean, ('in', mean)))
+        except NonConst:
+            bad.append('after %d values the mean is not a linear form of the inputs' % (k + 1))
+            return
+        if not isinstance(f, Form):
+            bad.append('after %d values the mean is not a linear form of the inputs' % (k + 1))
+            return
+        f = _rename_u(f, 'u%d' % k)
+        steps[0] += 1
+        want = {'u%d' % j: 1.0 / (k + 1) for j in range(k + 1)}
+        keys = set(f) | set(want)
+        if any(abs(f.get(a, 0.0) - want.get(a, 0.0)) > 1e-12 for a in keys):
+            a = max(keys, key=lambda a_: abs(f.get(a_, 0.0) - want.get(a_, 0.0)))
+            bad.append('after %d values the weight of %s in the mean is %.6g, not 1/%d' % (k + 1, a, f.get(a, 0.0), k + 1))
+    ctor_ = [x['fn'].name for x in m.ctor_models if x['init'] is not None]
+    if ctor_:
+        transient(m, ctor_[0], {}, 40, probe=probe)
+    R.ob('WR-mean-history', 'WelfordRolling', not bad and steps[0] > 0,
+         'from the initial state the mean after k delivered values is (1/k)·Σ of them, weight by weight, for k = 1..%d' % steps[0]
+         if not bad and steps[0] > 0 else (bad[0] if bad else 'nothing analysed'), v.file)
     mean_after = delivering_value(m, mean)
     for c in floats:
         if c == mean:
